@@ -268,39 +268,32 @@ theorem lisHeader_shape (L : TD.C05.Layout) (r0 : Bytes) (rs : List Bytes) (h : 
     rw [e]
     constructor <;> omega
 
-/-- the pad-option scan condition for one `pr_limit` (0 = whole file): no option counts more physical records than the
-file has within the limit (`TD.C05.pad_reader_refines_cond`; the scan is a heuristic, the condition cannot be dropped) -/
-def ScanOK (L : TD.C05.Layout) (rs : List Bytes) (limit : Nat) : Prop :=
-  ∀ o ∈ TD.C05.padOptions, TD.C05.scanFile ⟨true, o.1, o.2⟩ (TD.C05.encode L rs) limit
-    ≤ (if limit = 0 then TD.C05.numPRs L rs else min limit (TD.C05.numPRs L rs))
-
 /-- **LIS — the deep test proved** for files of the C05 encoder (`TD.C05.encode`, = what `File.FileWrite` writes) that begin
-with a reel/tape/file header, with `lisTest` the concrete `_lis` as repaired in /repo (`LisTest.lean`): two rounds
-(`pr_limit` 100, then the whole file); in each, every pad option with the maximal count is tried in dict order —
-`FileRead(keepGoing=True, option)`, `FileIndex` — options that raise or give an empty index are skipped, the first
-non-empty index returns the code of the file's TIF state.
+with a reel/tape/file header, with `lisTest` the concrete `_lis` as it is in /repo after 80d49da (`LisTest.lean`): two
+rounds (`pr_limit` 100, then the whole file); in each, every pad option that read at least one physical record is tried,
+best count first, ties in dict order — `FileRead(keepGoing=True, option)`, `FileIndex` — options that raise or give an
+empty index are skipped, the first non-empty index returns the code of the file's TIF state.
 For every valid layout (trailer options, TIF off / normal / reversed, maximum PR length; without TIF at least 13 payload
 bytes in the first PR), every header record `r0` and all further non-empty records `rs` the file is identified as
 `LIS` / `LISt` / `LIStr` according to its TIF mode, whatever the DAT trial parse says.
-The argument: the file's true option (no padding, (0, False)) is the first best option of one of the two rounds and
-indexing with it succeeds, so the loop returns no later than that; whichever option returns, the code is the same,
-because the TIF state is read from the first 12 bytes, not from the pad option (`lisTest_flavour`).
-Residual hypotheses:
-* `hscan` — ONE of: the file has at least 100 physical records (then no option can count more than 100 in round 1 and
-        (0, False) ties first: `TD.C05.pad_reader_refines`); or no option over-counts in the 100-scan; or no option
-        over-counts in the whole-file scan (weaker than before the repair: either round suffices);
-* `hidx` building the index over the records does not raise (`TD.C06.fileIndex … = .ok es`; record contents decide this);
-        non-emptiness of the index then FOLLOWS from the header record (`TD.C06.index_lists_all`);
-* `hsz` the file is shorter than 2^32 − 24 bytes (TIF words).
-Not covered by this theorem: files with PAD bytes after their physical records — `TD.C05.encode` writes none; they are
-the input class of the repaired defect and are exercised by the oracle and the `lis-deep` correspondence stream, and
-by the two kernel-evaluated `example`s below.
+The argument: in the whole-file round the file's own option (no padding) counts all its physical records
+(`TD.C05.scan_counts_records`), a non-zero count, so it is among the options tried (`mem_lisTried`) and indexing with it
+succeeds; whichever option returns first — in either round — gives the same code, because the TIF state is read from the
+first 12 bytes, not from the pad option (`lis_answer_is_tif_state`).  No condition on the pad-option scan is left.
+What remains assumed, exactly:
+* `hidx` building the index over the records does not raise (`TD.C06.fileIndex … = .ok es`; record contents decide this: a
+        type-64 record must be a parseable DFSR, a table record must start with a component block, …); non-emptiness of
+        the index then FOLLOWS from the header record (`TD.C06.index_lists_all`);
+* `hsz` the file is shorter than 2^32 − 24 bytes (TIF words);
+* the shape of the header record (`LisHeaderRec`) and, without TIF markers, 13 payload bytes in the first physical record
+  (both only for "no earlier test claims the file").
+Not covered: files with PAD bytes after their physical records — `TD.C05.encode` writes none; they are exercised by the
+oracle, the `lis-deep` correspondence stream and the kernel-evaluated examples of `ExamplesPad.lean`.
 Modelling assumption: `lisTest` obtains the records from the reader by `readLrBytes(-1); tellLr()`; `FileIndex` uses other
 reads of the same records — equal on these files by `read_refines` (every history). -/
 theorem lis_identified (datP : Bytes → Bool) (L : TD.C05.Layout) (hL : L.Valid)
     (r0 : Bytes) (rs : List Bytes) (hhdr : LisHeaderRec r0) (hmp : L.tif = .off → 13 ≤ L.maxPayload)
     (hr : ∀ r ∈ rs, r ≠ []) (hsz : TD.C05.fileSize L (r0 :: rs) + 24 < 4294967296)
-    (hscan : lisPrLimit ≤ TD.C05.numPRs L (r0 :: rs) ∨ ScanOK L (r0 :: rs) lisPrLimit ∨ ScanOK L (r0 :: rs) 0)
     (es : List TD.C06.Entry) (hidx : TD.C06.fileIndex (posRecs L (r0 :: rs) 0 (r0 :: rs).length) = .ok es) :
     identify lisTest datP (TD.C05.encode L (r0 :: rs)) = (lisCodeOf L.tif).code := by
   obtain ⟨⟨t, a, payload, hr0, ht⟩, hfn⟩ := lisHeader_shape L r0 rs hhdr
@@ -315,16 +308,7 @@ theorem lis_identified (datP : Bytes → Bool) (L : TD.C05.Layout) (hL : L.Valid
       simp [posRecs, TD.C05.recAt, hr0]
     rw [hp] at hidx
     exact fileIndex_nonempty _ t a payload _ es ht hidx
-  have hbest : ∃ limit, (limit = lisPrLimit ∨ limit = 0) ∧ TD.C05.bestPad (TD.C05.encode L (r0 :: rs)) limit = some (0, false) := by
-    rcases hscan with h | h | h
-    · exact ⟨lisPrLimit, Or.inl rfl, (TD.C05.pad_reader_refines L (r0 :: rs) [] lisPrLimit hL hr' (fun _ => by simp) (fun _ => hfn) hsz
-        (by intro op hop; cases hop) (by decide) h).1⟩
-    · exact ⟨lisPrLimit, Or.inl rfl, (TD.C05.pad_reader_refines_cond L (r0 :: rs) [] lisPrLimit hL hr' (by simp) (fun _ => hfn) hsz
-        (by intro op hop; cases hop) h).1⟩
-    · exact ⟨0, Or.inr rfl, (TD.C05.pad_reader_refines_cond L (r0 :: rs) [] 0 hL hr' (by simp) (fun _ => hfn) hsz
-        (by intro op hop; cases hop) h).1⟩
-  obtain ⟨limit, hl, hb⟩ := hbest
-  have hdeep := lisTest_encode L (r0 :: rs) hL hr' (by simp) (fun _ => hfn) hsz limit hl hb es hidx hes
+  have hdeep := lisTest_encode L (r0 :: rs) hL hr' (by simp) (fun _ => hfn) hsz es hidx hes
   exact lis_identified_c05 lisTest datP L hL r0 rs hhdr hmp hdeep
 
 /-- for EVERY byte string: if the deep test answers at all, it answers the code of the file's TIF state — independent of
@@ -340,7 +324,7 @@ set_option maxRecDepth 100000 in
 example (es : List TD.C06.Entry) (h : TD.C06.fileIndex (posRecs exLay (exHdr :: exRest) 0 2) = .ok es) :
     identify lisTest (fun _ => false) (TD.C05.encode exLay (exHdr :: exRest)) = "LISt" :=
   lis_identified _ exLay (by decide) exHdr exRest ⟨Or.inl (by simp [exHdr]), by decide, by decide, by decide⟩
-    (by intro h; cases h) (by decide) (by decide) (Or.inr (Or.inl (by unfold ScanOK; decide +kernel))) es h
+    (by intro h; cases h) (by decide) (by decide) es h
 
 set_option maxRecDepth 100000 in
 /-- … and building the index of these two records succeeds; the concrete deep test evaluates to `LISt` -/
